@@ -9,7 +9,7 @@
    Key-size guard: 11 <= numBytes n <= 65535 (80-bit to 524280-bit moduli). *)
 From Coq Require Import String ZArith List Bool.
 From TV Require Import Base.Prelude Base.C11_Lib Gen.ConstantTime Gen.C11_RsaDecrypt Gen.C11_RsaKex
-  Spec.C11_Pkcs1Dec Model.C11_ServerTail Proofs.CtOps Proofs.C11_LibFacts Proofs.C11_Decrypt Proofs.C11_Kex Proofs.C11_Format.
+  Spec.C11_Pkcs1Dec Model.C11_ServerTail Proofs.CtOps Proofs.C11_LibFacts Proofs.C11_Decrypt Proofs.C11_Kex Proofs.C11_Format Proofs.C11_Top.
 Import ListNotations.
 Open Scope Z_scope.
 
@@ -37,6 +37,22 @@ Proof. intros hash hmac raw n d enc [H1 H2] R K D. exact (decrypt_total_all hash
 (* the specification's validity test is exactly the format 00 02 PS 00 M, |PS| >= 8, PS non-zero *)
 Theorem unpad_is_format : forall em m, pkcs1_unpad em = Some m <-> pkcs1_format em m.
 Proof. exact unpad_iff_format. Qed.
+
+(* the same in the words of the property: for every ciphertext of the right length below n,
+   a block of the format 00 02 PS 00 M (|PS| >= 8, PS non-zero) yields M, any other block
+   yields the tail of the pseudo-random message selected by synth_len *)
+Theorem decrypt_by_format : forall hash hmac raw n d enc,
+  hmac_ok hmac -> (forall m, 0 <= raw m) -> key_size_ok n -> 0 <= d ->
+  zlen enc = numBytes n -> bytesToNumber enc < n ->
+  let k := numBytes n in
+  let em := be_bytes (Z.to_nat k) (raw (bytesToNumber enc)) in
+  let kdk := hmac (hash (be_bytes (Z.to_nat k) d)) enc in
+  (forall M, pkcs1_format em M -> decrypt hash hmac raw true n d "rsa"%string enc = Ok (Some M)) /\
+  ((forall M, ~ pkcs1_format em M) ->
+     decrypt hash hmac raw true n d "rsa"%string enc =
+     Ok (Some (skipn (Z.to_nat (k - synth_len k (prf_spec hmac kdk label_length 2048)))
+                     (prf_spec hmac kdk label_message (k * 8))))).
+Proof. intros hash hmac raw n d enc [H1 H2]. exact (decrypt_by_format_all hash hmac raw n d enc H1 H2). Qed.
 
 (* 2-safety: for the same ciphertext (hence the same PRF stream) any two invalid decrypted
    blocks give the same result: it depends on the decrypted bytes only through validity *)
